@@ -949,6 +949,34 @@ func (b *bctx) lowerBound(v ssa.Value, seen visit) (int64, bool) {
 		}
 	case *ssa.Call:
 		n := calleeName(&x.Call)
+		if n == "builtin len" && len(x.Call.Args) == 1 {
+			// len(fmt.Sprintf("{%s}", …)) is at least the number of literal bytes of the constant format
+			if sp := asCall(x.Call.Args[0]); sp != nil && calleeName(&sp.Call) == "fmt.Sprintf" {
+				if fm, isK := constString(sp.Call.Args[0]); isK {
+					lit := int64(0)
+					for i := 0; i < len(fm); i++ {
+						if fm[i] == '%' && i+1 < len(fm) {
+							if fm[i+1] == '%' {
+								lit++
+							}
+							// (a verb: flags / width characters are not counted as literal text either way)
+							j := i + 1
+							for j < len(fm) && !(fm[j] >= 'a' && fm[j] <= 'z' || fm[j] >= 'A' && fm[j] <= 'Z' || fm[j] == '%') {
+								j++
+							}
+							i = j
+							continue
+						}
+						lit++
+					}
+					return lit, true
+				}
+			}
+			// len("{" + name + "}")
+			if lb, ok := concatLiteralLen(x.Call.Args[0]); ok {
+				return lb, true
+			}
+		}
 		if n == "builtin len" || n == "builtin cap" || n == "builtin copy" {
 			return 0, true
 		}
@@ -1795,4 +1823,30 @@ func (b *bctx) inheritAssumptions(caller *ssa.Function, depth int) {
 			b.inheritAssumptions(h, depth+1)
 		}
 	}
+}
+
+// concatLiteralLen: a lower bound of the length of a string built by concatenation — the summed length of its constant
+// pieces.
+func concatLiteralLen(v ssa.Value) (int64, bool) {
+	switch x := v.(type) {
+	case *ssa.Const:
+		if s, ok := constString(x); ok {
+			return int64(len(s)), true
+		}
+	case *ssa.BinOp:
+		if x.Op == token.ADD {
+			a, okA := concatLiteralLen(x.X)
+			b, okB := concatLiteralLen(x.Y)
+			if !okA {
+				a = 0
+			}
+			if !okB {
+				b = 0
+			}
+			if okA || okB {
+				return a + b, true
+			}
+		}
+	}
+	return 0, false
 }
